@@ -31,9 +31,9 @@ def scenario_cases(ctx, module, cfg):
     return vlib.read_jsonl(raw)
 
 
-def run_sharded(ctx, cmd, cases, shards, extra_args=None, timeout=1700):
+def run_sharded(ctx, cmd, cases, shards, extra_args=None, timeout=1700, tag=""):
     binary = vlib.go_build(cmd)
-    cpath = os.path.join(ctx.tmp, cmd + "_picked.jsonl")
+    cpath = os.path.join(ctx.tmp, cmd + tag + "_picked.jsonl")
     with open(cpath, "w") as fh:
         for c in cases:
             fh.write(json.dumps(c) + "\n")
@@ -41,9 +41,9 @@ def run_sharded(ctx, cmd, cases, shards, extra_args=None, timeout=1700):
     env = vlib.go_env()
     env.update(VERIF_SEED=str(ctx.seed), VERIF_TIER=ctx.tier)
     for s in range(shards):
-        t = os.path.join(ctx.tmp, "%s_trace_%d.ndjson" % (cmd, s))
-        r = os.path.join(ctx.tmp, "%s_res_%d.jsonl" % (cmd, s))
-        lg = open(os.path.join(ctx.tmp, "%s_drv_%d.log" % (cmd, s)), "w")
+        t = os.path.join(ctx.tmp, "%s%s_trace_%d.ndjson" % (cmd, tag, s))
+        r = os.path.join(ctx.tmp, "%s%s_res_%d.jsonl" % (cmd, tag, s))
+        lg = open(os.path.join(ctx.tmp, "%s%s_drv_%d.log" % (cmd, tag, s)), "w")
         p = subprocess.Popen(["timeout", "-k", "10", str(timeout), binary, "-cases", cpath, "-trace", t, "-results", r,
                               "-shard", str(s), "-shards", str(shards)] + (extra_args or []),
                              stdout=lg, stderr=subprocess.STDOUT, env=env, cwd=ctx.tmp)
